@@ -8,7 +8,7 @@ Definition okq (o : option Q) (q : Q) : bool := match o with Some x => Qeq_bool 
 
 (* number_forms: every documented form, hypotheses true, and the value is the expected one *)
 Definition nf_ok (s : str) (q : Q) : bool :=
-  fortran_number s && negb (signed_d s) && okq (convert s) q && Qeq_bool (value s) q.
+  fortran_number s && okq (convert s) q && Qeq_bool (value s) q.
 Example number_forms_examples :
   forallb (fun sq => nf_ok (fst sq) (snd sq))
     [ (s_of [49;46;53;68;45;50], 15 # 1000);         (* 1.5D-2 *)
@@ -20,12 +20,14 @@ Example number_forms_examples :
       (s_of [45;49;46;53;69;43;50], -150 # 1);       (* -1.5E+2 *)
       (s_of [53;46;45;49], 5 # 10);                  (* 5.-1   *)
       (s_of [49;100;49], 10 # 1);                    (* 1d1    *)
+      (s_of [45;53;100;49], -50 # 1);                (* -5d1   *)
+      (s_of [43;49;46;53;68;50], 150 # 1);           (* +1.5D2 *)
       (s_of [48;48;55], 7 # 1) ] = true.             (* 007    *)
 Proof. vm_compute. reflexivity. Qed.
 
 (* convert_rejects: strings over the documented alphabet, pattern anchored, outside the grammar *)
 Example convert_rejects_examples :
-  forallb (fun s => g_charset s && g_anchored s && negb (fortran_number s) &&
+  forallb (fun s => g_charset s && negb (fortran_number s) &&
                     match convert s with None => true | Some _ => false end)
     [ s_of [49;101];            (* 1e    *)
       s_of [49;46;46;50];       (* 1..2  *)
@@ -34,6 +36,8 @@ Example convert_rejects_examples :
       s_of [49;101;53;45;50];   (* 1e5-2 *)
       s_of [46];                (* .     *)
       s_of [100;49];            (* d1    *)
+      s_of [50;45;49;45;49];    (* 2-1-1 *)
+      s_of [50;45;49;100;53];   (* 2-1d5 *)
       s_of [49;46;53;45;50;46;53] ] = true.  (* 1.5-2.5 *)
 Proof. vm_compute. reflexivity. Qed.
 
@@ -45,19 +49,14 @@ Example split_spec_example :
   resplit (pystrip row) = spec_items row.
 Proof. repeat split; vm_compute; reflexivity. Qed.
 
-(* pad_strip: $INPUT has 3 columns; rows with 2, 1 and 2 items, NULL=7 *)
+(* pad_strip: $INPUT has 3 columns; rows with 2, 1 and 2 items: padded with None; a wide first row is cut *)
 Example pad_strip_example :
   let rows := [[s_of [49]; s_of [50]]; [s_of [51]]; [s_of [52]; s_of [53]]] in
-  let ns := s_of [55;46;48] in
-  null_subst ns (Some ns) = ns /\
   forallb (fun r => Nat.min (length r) 3 <=? length (hd [] rows)) rows = true /\
-  frame 3 ns rows = Ok [[Some (s_of [49]); Some (s_of [50]); Some ns]; [Some (s_of [51]); None; Some ns];
-                        [Some (s_of [52]); Some (s_of [53]); Some ns]].
+  frame 3 rows = Ok [[Some (s_of [49]); Some (s_of [50]); None]; [Some (s_of [51]); None; None];
+                     [Some (s_of [52]); Some (s_of [53]); None]] /\
+  frame 1 [[s_of [49]; s_of [50]]; [s_of [51]]] = Ok [[Some (s_of [49])]; [Some (s_of [51])]].
 Proof. repeat split; vm_compute; reflexivity. Qed.
-
-(* frame_rejects *)
-Example frame_rejects_example : frame 1 [c_0] [[s_of [49]; s_of [50]]] = Err KeyErr.
-Proof. vm_compute. reflexivity. Qed.
 
 (* filters_in_order: IGNORE=(A.EQ.x, B.GT.1): the first statement removes the row whose B does not
    convert, so the second never fails; in the other order the read fails *)
